@@ -30,6 +30,10 @@ struct Redir {
     op: Op,
     /// file path, or fd number as text, or "-" (close)
     operand: String,
+    /// how the operand is spelled: 0 literally, 1 `"$(echo X)"`, 2 backquotes, 3 `"${unset_var:-X}"`.
+    /// The operand of the n-th redirection is expanded after redirections 1..n-1 have been
+    /// performed, so a substitution runs with the descriptors as they are at that point.
+    via: u8,
 }
 
 impl Redir {
@@ -47,7 +51,13 @@ impl Redir {
         if self.op == Op::HereDoc {
             format!("{}<<{}", self.fd, self.operand)
         } else {
-            format!("{}{}{}", self.fd, op, self.operand)
+            let operand = match self.via {
+                1 => format!("\"$(echo {})\"", self.operand),
+                2 => format!("`echo {}`", self.operand),
+                3 => format!("\"${{c09_unset_variable:-{}}}\"", self.operand),
+                _ => self.operand.clone(),
+            };
+            format!("{}{}{}", self.fd, op, operand)
         }
     }
 }
@@ -246,8 +256,14 @@ struct Scenario {
 
 const FILES: [(&str, &str); 3] = [("/tmp/in", "input\n"), ("/tmp/out", "old\n"), ("/tmp/f3", "")];
 
+/// file mode creation mask of a scenario (derived from the scenario so that replays agree)
+fn umask_of(sc: &Scenario) -> u32 {
+    [0o022, 0o027, 0o000, 0o077, 0o002, 0o026][(sc.redirs.len() * 3 + sc.noclobber as usize * 2 + sc.redirs.iter().map(|r| r.text().len()).sum::<usize>()) % 6]
+}
+
 fn script_of(sc: &Scenario) -> String {
     let mut s = String::new();
+    s.push_str(&format!("umask {:03o}\n", umask_of(sc)));
     s.push_str("f() { fds in; }\n");
     s.push_str("exec 3>>/tmp/f3 4</tmp/in\n");
     if sc.noclobber {
@@ -468,6 +484,18 @@ fn check(sc: &Scenario, out: &vsh::VOut) -> Result<(), (String, String)> {
                     ));
                 }
             }
+            // a file created by a redirection gets rw for everybody minus the file mode creation mask,
+            // whichever operator created it and whether or not noclobber is set
+            if let Ok(f) = st.file_system.get("/tmp/new") {
+                let bits = f.borrow().permissions.bits() as u32 & 0o7777;
+                let want = 0o666 & !umask_of(sc);
+                if bits != want {
+                    return Err((
+                        "file-mode".into(),
+                        format!("/tmp/new was created with permission bits {bits:03o}; a redirection creates files with 666 & ~umask = {want:03o} (umask {:03o})", umask_of(sc)),
+                    ));
+                }
+            }
             for p in ["/tmp/new"] {
                 if !world.files.contains_key(p) && st.file_system.get(p).is_ok() {
                     return Err(("file-created".into(), format!("{p} was created although no performed redirection creates it")));
@@ -543,6 +571,7 @@ fn all_redirs() -> Vec<Redir> {
                     fd,
                     op: op.clone(),
                     operand: o.to_string(),
+                    via: 0,
                 });
             }
         }
@@ -884,6 +913,20 @@ pub fn run(ctx: &Ctx) {
             nofile: None,
         });
     }
+    // every third scenario spells its operands through expansions (command substitutions run with the
+    // descriptor table as the earlier redirections of the list left it)
+    let mut nvia = 0;
+    for (k, sc) in scenarios.iter_mut().enumerate() {
+        if k % 3 == 1 {
+            for (j, r) in sc.redirs.iter_mut().enumerate() {
+                if r.op != Op::HereDoc {
+                    r.via = 1 + ((k / 3 + j) % 3) as u8;
+                }
+            }
+            nvia += 1;
+        }
+    }
+    ctx.count("scenarios_with_operands_from_expansions", nvia);
     let nplain = scenarios.len();
     // fault enumeration: every limit from highest open descriptor + 1 (= 5) to 20
     let mut k = 0usize;
